@@ -39,6 +39,9 @@ TABLE = {
                                NameChoices="Set0", EndForms="Set1", Contains="FALSE", DumpMod=1),
     "Perturb_c08p_thorough": dict(BASE, MaxStmts=2, MaxDepth=2, MaxRich="= 1", MaxVar=30, UnitKinds="SubOnly", ConKinds="AllCons", SpecKinds="Empty", PKinds="KPar", MaxEdits=1,
                                   NameChoices="Set01", EndForms="Set02", Contains="FALSE", DumpMod=1),
+    # ... and of every subroutine / function header variant
+    "Perturb_c08u_quick": dict(BASE, MaxStmts=1, MaxDepth=1, MaxRich="= 1", MaxVar=30, UnitKinds="SubFun", ConKinds="Empty", SpecKinds="Empty", PKinds="KPar", MaxEdits=1,
+                               NameChoices="Set0", EndForms="Set02", Contains="FALSE", DumpMod=1),
     "Perturb_c08c_quick": dict(BASE, PKinds="KStruct", MaxEdits=1, ConKinds="NestCons2", SpecKinds="AllSpec", UnitKinds="SubMod", DumpMod=23),
     "Perturb_c08c_thorough": dict(BASE, PKinds="KStruct", MaxEdits=1, ConKinds="NestCons2", SpecKinds="AllSpec", UnitKinds="SubMod", DumpMod=3),
     "Perturb_c13_quick": dict(BASE, PKinds="KInc", MaxEdits=2, DumpMod=32),
@@ -79,8 +82,8 @@ TABLE = {
 SUBST = {"UnitKinds", "ConKinds", "SpecKinds", "SimpleV", "DeclV", "UseV", "FormatV", "CompV", "TbindV", "NameChoices", "EndForms", "PKinds", "InsSet"}
 for name, d in TABLE.items():
     L = ["SPECIFICATION Spec", "CONSTANTS"]
-    ncmt = d.pop("NCmtCls", 7 if "_c15_" in name else 8)
-    ncpp = d.pop("NCppForms", 27)
+    ncmt = d.pop("NCmtCls", 7 if "_c15_" in name else 9)
+    ncpp = d.pop("NCppForms", 29)
     for k, v in d.items():
         if k == "MaxRich":
             L.append("  MaxRich " + v)
